@@ -283,17 +283,18 @@ class InterpolatedLinearOperator(LinearOperator):
 
         # left_interp_values grad
         right_interp_right_res = self.base_linear_op._matmul(right_res).contiguous()
+        n_inducing_left = right_interp_right_res.size(-2)  # rows of the base operator (may differ from its columns)
         batch_shape = torch.Size(right_interp_right_res.shape[:-2])
         batch_size = batch_shape.numel()
         if len(batch_shape):
             batch_offset = torch.arange(0, batch_size, dtype=torch.long, device=self.device).view(*batch_shape)
-            batch_offset.unsqueeze_(-1).unsqueeze_(-1).mul_(n_inducing)
+            batch_offset.unsqueeze_(-1).unsqueeze_(-1).mul_(n_inducing_left)
             batched_right_interp_indices = self.right_interp_indices
             batched_left_interp_indices = (self.left_interp_indices + batch_offset).view(-1)
         else:
             batched_left_interp_indices = self.left_interp_indices.view(-1)
 
-        flattened_right_interp_right_res = right_interp_right_res.view(batch_size * n_inducing, n_vecs)
+        flattened_right_interp_right_res = right_interp_right_res.view(batch_size * n_inducing_left, n_vecs)
         selected_right_vals = flattened_right_interp_right_res.index_select(0, batched_left_interp_indices)
         selected_right_vals = selected_right_vals.view(*batch_shape, n_left_rows, n_left_interp, n_vecs)
         left_values_grad = (selected_right_vals * left_vecs.unsqueeze(-2)).sum(-1)
